@@ -1,4 +1,10 @@
-"""C07 — DeferredQueue: H-tie (hand-written model coq/C07, correspondence on generated histories)."""
+"""C07 — DeferredQueue: H-tie (hand-written model coq/C07, correspondence on generated histories).
+
+A case is {"size", "backlog", "ops": [...], "react": {"<get id>": [...ops...]}}.  ops are ["put", k] | ["get"] |
+["cancel", i]; the object put by ["put", k] is Val(k): objects with k1 % 2 == k2 % 2 compare EQUAL (and hash alike)
+but are distinct objects, and every observation names the object by its k, so equality-based bookkeeping in the
+implementation cannot hide behind indistinguishable values.  "react" gives, per get number, the queue operations the
+application's callback on that get performs when its Deferred fires or fails (re-entrant use of the queue)."""
 from __future__ import annotations
 
 import itertools
@@ -6,123 +12,173 @@ import itertools
 from harness.common import Failure, Spec, coq_list, coq_option
 
 
-# case = {"size": int|None, "backlog": int|None, "ops": [["put", x] | ["get"] | ["cancel", i]]}
+class Val:
+    __slots__ = ("k",)
+
+    def __init__(self, k):
+        self.k = k
+
+    def __eq__(self, other):
+        return isinstance(other, Val) and other.k % 2 == self.k % 2
+
+    def __hash__(self):
+        return hash(self.k % 2)
+
+    def __repr__(self):
+        return str(self.k)
 
 
 def impl(case) -> str:
     from twisted.internet import defer
 
     q = defer.DeferredQueue(size=case["size"], backlog=case["backlog"])
+    react = {int(k): v for k, v in case.get("react", {}).items()}
     gets = []           # Deferreds handed out by get(), in call order
-    fired = []          # (get id, 'ok'/'err', value) in firing order, via callbacks only (API-level)
     events = []
+    state = {"attaching": False, "fired": 0}
 
-    def watch(i, d):
-        d.addCallbacks(lambda v: fired.append((i, "ok", v)), lambda f: fired.append((i, "err", f.type.__name__)))
+    def run_reaction(i):
+        for op in react.get(i, []):
+            try:
+                do(op)
+            except BaseException as e:   # an exception inside a callback would vanish into the Deferred
+                events.append("X" + type(e).__name__)
 
-    for op in case["ops"]:
-        n0 = len(fired)
+    def on_ok(i):
+        def cb(v):
+            state["fired"] += 1
+            events.append(("I" if state["attaching"] else "D") + f"{i}:{v!r}")
+            state["attaching"] = False
+            run_reaction(i)
+        return cb
+
+    def on_err(i):
+        def eb(f):
+            state["fired"] += 1
+            name = f.type.__name__
+            events.append(f"C{i}" if name == "CancelledError" else f"E{i}:{name}")
+            run_reaction(i)
+        return eb
+
+    def do(op):
+        n0 = state["fired"]
         if op[0] == "put":
             try:
-                q.put(op[1])
+                q.put(Val(op[1]))
             except defer.QueueOverflow:
                 events.append("O")
-                continue
-            new = fired[n0:]
-            if not new:
+                return
+            if state["fired"] == n0:
                 events.append("Q")
-            else:
-                events.append("+".join(f"D{i}:{v}" if k == "ok" else f"E{i}:{v}" for i, k, v in new))
         elif op[0] == "get":
             try:
                 d = q.get()
             except defer.QueueUnderflow:
                 events.append("U")
-                continue
+                return
             i = len(gets)
             gets.append(d)
-            watch(i, d)
-            new = fired[n0:]
-            if not new:
+            state["attaching"] = True
+            d.addCallbacks(on_ok(i), on_err(i))
+            if state["attaching"]:          # nothing fired while attaching: an unfired Deferred
+                state["attaching"] = False
                 events.append(f"W{i}")
-            else:
-                events.append("+".join(f"I{i}:{v}" if k == "ok" else f"E{i}:{v}" for i, k, v in new))
         else:
             i = op[1]
             if i >= len(gets):
                 events.append(f"N{i}")
-                continue
+                return
             gets[i].cancel()
-            new = fired[n0:]
-            if not new:
+            if state["fired"] == n0:
                 events.append(f"N{i}")
-            else:
-                events.append("+".join(f"C{i}" if (k, v) == ("err", "CancelledError") else f"X{i}:{k}:{v}"
-                                       for i, k, v in new))
+
+    for op in case["ops"]:
+        do(op)
     # final state through the public attributes the class documents (waiting / pending)
-    w = [gets.index(d) for d in q.waiting]
-    return " ".join(events) + " |w=[" + ",".join(map(str, w)) + "] p=[" + ",".join(map(str, q.pending)) + "]"
+    w = [gets.index(d) if d in gets else -1 for d in q.waiting]
+    return " ".join(events) + " |w=[" + ",".join(map(str, w)) + "] p=[" + ",".join(repr(v) for v in q.pending) + "]"
 
 
-def oracle(case, obs):
-    """The property, evaluated on the implementation's event log with independent bookkeeping."""
-    evs = obs.split(" |")[0].split(" ") if case["ops"] else []
+def reference(case):
+    """The property as a reference FIFO (independent of the Coq model): expected events, depth-first reactions."""
     size, backlog = case["size"], case["backlog"]
-    queued = []          # accepted, undelivered objects in put order
-    waiting = []         # pending uncancelled gets, oldest first
-    nget = 0
-    if len(evs) != len(case["ops"]):
-        return Failure(case, "malformed log", "log")
-    for k, (op, e) in enumerate(zip(case["ops"], evs)):
-        where = f"op {k} {op} -> {e}: "
-        if "+" in e or e[0] in "EX":
-            return Failure(case, where + "more than one Deferred fired, or an unexpected failure", "multi-fire")
+    react = {int(k): v for k, v in case.get("react", {}).items()}
+    queued, waiting, events = [], [], []
+    nget = [0]
+
+    def do(op, depth=0):
+        if depth > 200:
+            raise RecursionError
         if op[0] == "put":
             x = op[1]
             if waiting:
-                want = f"D{waiting[0]}:{x}"
-                if e != want:
-                    return Failure(case, where + f"expected delivery to the oldest uncancelled get ({want})",
-                                   "put-with-waiter")
-                waiting.pop(0)
+                i = waiting.pop(0)
+                events.append((f"D{i}:{x}", "put-with-waiter"))
+                for o in react.get(i, []):
+                    do(o, depth + 1)
             elif size is not None and len(queued) >= size:
-                if e != "O":
-                    return Failure(case, where + "expected QueueOverflow", "overflow-missing")
+                events.append(("O", "overflow"))
             else:
-                if e != "Q":
-                    return Failure(case, where + ("unexpected QueueOverflow" if e == "O" else "expected queued"),
-                                   "overflow-spurious" if e == "O" else "put-queue")
                 queued.append(x)
+                events.append(("Q", "put-queue"))
         elif op[0] == "get":
             if queued:
-                want = f"I{nget}:{queued[0]}"
-                if e != want:
-                    return Failure(case, where + f"expected the oldest queued object ({want})", "get-order")
-                queued.pop(0)
-                nget += 1
+                x = queued.pop(0)
+                i = nget[0]
+                nget[0] += 1
+                events.append((f"I{i}:{x}", "get-order"))
+                for o in react.get(i, []):
+                    do(o, depth + 1)
             elif backlog is not None and len(waiting) >= backlog:
-                if e != "U":
-                    return Failure(case, where + "expected QueueUnderflow", "underflow-missing")
+                events.append(("U", "underflow"))
             else:
-                if e != f"W{nget}":
-                    return Failure(case, where + ("unexpected QueueUnderflow" if e == "U" else "expected a waiting get"),
-                                   "underflow-spurious" if e == "U" else "get-wait")
-                waiting.append(nget)
-                nget += 1
+                waiting.append(nget[0])
+                events.append((f"W{nget[0]}", "get-wait"))
+                nget[0] += 1
         else:
             i = op[1]
             if i in waiting:
-                if e != f"C{i}":
-                    return Failure(case, where + "cancelling a pending get must fail it with CancelledError",
-                                   "cancel")
                 waiting.remove(i)
-            elif e != f"N{i}":
-                return Failure(case, where + "cancelling a finished get must do nothing", "cancel-noop")
+                events.append((f"C{i}", "cancel"))
+                for o in react.get(i, []):
+                    do(o, depth + 1)
+            else:
+                events.append((f"N{i}", "cancel-noop"))
+
+    for op in case["ops"]:
+        do(op)
+    return events, waiting, queued
+
+
+def oracle(case, obs):
+    """Every object put is delivered exactly once, in put order, to the oldest pending uncancelled get or else to a
+    later get; QueueOverflow / QueueUnderflow exactly under the stated conditions — compared event by event."""
+    head, _, tail = obs.partition(" |")
+    evs = head.split(" ") if head else []
+    exp, waiting, queued = reference(case)
+    for k, (want, kind) in enumerate(exp):
+        got = evs[k] if k < len(evs) else "<nothing>"
+        if got != want:
+            tag = kind
+            if got.startswith("X"):
+                tag = "exception-in-callback:" + got[1:]
+            elif kind == "overflow":
+                tag = "overflow-missing"
+            elif kind == "underflow":
+                tag = "underflow-missing"
+            elif got == "O":
+                tag = "overflow-spurious"
+            elif got == "U":
+                tag = "underflow-spurious"
+            if case.get("react"):
+                tag += "/reentrant"
+            return Failure(case, f"event {k}: expected {want}, observed {got} (events: {head})", tag)
+    if len(evs) != len(exp):
+        return Failure(case, f"{len(evs)} events observed, {len(exp)} expected (events: {head})", "extra-events")
+    want_tail = "w=[" + ",".join(map(str, waiting)) + "] p=[" + ",".join(map(str, queued)) + "]"
+    if tail != want_tail:
+        return Failure(case, f"final state {tail}, expected {want_tail}", "final-state")
     return None
-
-
-def _ops_alphabet(nvals=2):
-    return [["put", 0], ["get"], ["cancel", 0], ["cancel", 1]]
 
 
 def gen(rng, tier):
@@ -156,6 +212,44 @@ def gen(rng, tier):
             else:
                 ops.append(["cancel", rng.randrange(ngets + 2)])
         cases.append({"size": size, "backlog": backlog, "ops": ops})
+    # re-entrant histories: callbacks of gets issue further operations (get / put / cancel) from inside put / cancel
+    kid = [1000]
+
+    def rop(ngets):
+        r = rng.random()
+        kid[0] += 1
+        if r < 0.4:
+            return ["get"]
+        if r < 0.8:
+            return ["put", kid[0]]
+        return ["cancel", rng.randrange(ngets + 3)]
+
+    # exhaustive small: one reacting get, every reaction of length <= 2 over {get, put}, limits at their boundaries
+    for size in lims:
+        for backlog in lims:
+            for rx in [[["get"]], [["put", 901]], [["get"], ["put", 902]], [["put", 903], ["get"]], [["get"], ["get"]],
+                       [["put", 904], ["put", 905]], [["cancel", 1]]]:
+                for pre in ([["get"]], [["get"], ["get"]], [["put", 1], ["get"]], [["put", 1], ["put", 3], ["get"]]):
+                    for post in ([["put", 5]], [["put", 5], ["put", 7]], [["cancel", 0], ["put", 5]],
+                                 [["put", 5], ["get"], ["put", 6]]):
+                        cases.append({"size": size, "backlog": backlog, "ops": pre + post,
+                                      "react": {"0": rx, "1": [["put", 906]] if rng.random() < 0.3 else []}})
+    for _ in range(600 if tier == "quick" else 20000):
+        size, backlog = rng.choice(lims + [3]), rng.choice(lims + [3])
+        ops, ngets = [], 0
+        for k in range(rng.randrange(3, 16)):
+            r = rng.random()
+            if r < 0.4:
+                ops.append(["put", k])
+            elif r < 0.85:
+                ops.append(["get"])
+                ngets += 1
+            else:
+                ops.append(["cancel", rng.randrange(ngets + 2)])
+        react = {}
+        for i in range(rng.randrange(1, 5)):
+            react[str(rng.randrange(ngets + 3))] = [rop(ngets) for _ in range(rng.randrange(1, 4))]
+        cases.append({"size": size, "backlog": backlog, "ops": ops, "react": react})
     return cases
 
 
@@ -166,41 +260,65 @@ def corpus():
         {"size": 0, "backlog": 0, "ops": [["put", 1], ["get"], ["put", 2]]},
         {"size": None, "backlog": None, "ops": [["get"], ["get"], ["cancel", 1], ["cancel", 1], ["put", 1],
                                                   ["put", 2], ["cancel", 0]]},
+        # the usual worker loop with backlog=1: the callback asks for the next object from inside put
+        {"size": None, "backlog": 1, "ops": [["get"], ["put", 1], ["put", 2]], "react": {"0": [["get"]], "1": [["get"]]}},
+        # a callback that puts while no other get is pending
+        {"size": None, "backlog": None, "ops": [["get"], ["put", 1], ["get"]], "react": {"0": [["put", 3]]}},
+        # a rejected put whose object equals a queued one (1 == 3 under Val's equality), then the queue is drained
+        {"size": 2, "backlog": None, "ops": [["put", 1], ["put", 2], ["put", 3], ["get"], ["get"]]},
+        {"size": 1, "backlog": None, "ops": [["put", 2], ["put", 4], ["get"], ["get"]]},
     ]
 
 
-def to_coq(case):
-    def op(o):
-        if o[0] == "put":
-            return f"Put ({o[1]})%Z"
-        if o[0] == "get":
-            return "Get"
-        return f"Cancel {o[1]}%nat"
+def _op(o):
+    if o[0] == "put":
+        return f"Put ({o[1]})%Z"
+    if o[0] == "get":
+        return "Get"
+    return f"Cancel {o[1]}%nat"
 
+
+def to_coq(case):
     lim = lambda v: coq_option(None if v is None else f"{v}%nat", "nat")
-    return f"({lim(case['size'])}, {lim(case['backlog'])}, {coq_list(map(op, case['ops']), 'op')})"
+    reacts = coq_list((f"({int(k)}%nat, {coq_list(map(_op, v), 'op')})" for k, v in sorted(case.get("react", {}).items())),
+                      "(nat * list op)")
+    return f"({lim(case['size'])}, {lim(case['backlog'])}, {reacts}, {coq_list(map(_op, case['ops']), 'op')})"
 
 
 def shrink(case):
     ops = case["ops"]
     for i in range(len(ops)):
         yield {**case, "ops": ops[:i] + ops[i + 1:]}
+    for k in list(case.get("react", {})):
+        r = dict(case["react"])
+        del r[k]
+        yield {**case, "react": r}
+        if len(case["react"][k]) > 1:
+            for j in range(len(case["react"][k])):
+                r2 = dict(case["react"])
+                r2[k] = case["react"][k][:j] + case["react"][k][j + 1:]
+                yield {**case, "react": r2}
 
 
 SPEC = Spec(
     pid="C07",
     gen=gen, impl=impl, oracle=oracle, corpus=corpus, shrink=shrink,
     coq_header="From C07 Require Import Model Run.",
-    coq_fn="run_show",
+    coq_fn="run_show_re",
     to_coq=to_coq,
     nontrivial=lambda c, o: any(t in o for t in ("D", "I", "C", "O", "U")),
-    histogram=lambda c, o: f"size={c['size']} backlog={c['backlog']}",
+    histogram=lambda c, o: f"size={c['size']} backlog={c['backlog']}" + (" reentrant" if c.get("react") else ""),
     rule="every history of length <= 5 (quick, the longest length sampled 25%) / <= 7 (thorough) over {put, get, "
-         "cancel get#0, cancel get#1} for size, backlog in {None,0,1,2}^2, plus random histories of 8-60 ops with "
-         "limits up to 5; non-trivial = at least one delivery, cancellation, overflow or underflow; distinct by "
-         "(case, observation)",
+         "cancel get#0, cancel get#1} for size, backlog in {None,0,1,2}^2; random histories of 8-60 ops with limits up "
+         "to 5; re-entrant histories (callbacks of gets issuing get/put/cancel from inside put/cancel): a systematic "
+         "block over 16 limit pairs x 7 reactions x 4 prefixes x 4 suffixes and random ones; put objects compare equal "
+         "in two classes but are distinct; non-trivial = at least one delivery, cancellation, overflow or underflow; "
+         "distinct by (case, observation)",
     trusted=["hand-written model coq/C07/Model.v (tied by this correspondence run only)",
-             "callbacks attached by the harness only record; re-entrant use of the queue from a get callback is not modelled"],
+             "re-entrant operations are modelled as running right after the operation that fired the Deferred "
+             "(theorem reentrant_history_is_its_flattening); that this is what the code does is what the "
+             "correspondence checks"],
     assumptions=["Deferred firing/cancellation behaves as in C03 (fired Deferred ignores cancel; unfired one with a "
                  "canceller that does not fire it fails with CancelledError)"],
+    shard=600,
 )
